@@ -191,10 +191,11 @@ Definition sort_skips (keys : list (option nat)) : result unit :=
          then Ok tt else Raise TypeError
   end.
 
-(* the keys of the skips of a strings.xml comparison: one entry per error-level
-   check result (the entity is appended once per result) and one per junk *)
-Definition android_skip_keys (n_results n_junk : nat) : list (option nat) :=
-  repeat c05_android_entity_key n_results ++ repeat c05_android_junk_key n_junk.
+(* the keys of the skips of a strings.xml comparison: one entry per shared string
+   with at least one error-level check result (`l10nent not in skips` lists an
+   entity once) and one per junk entry *)
+Definition android_skip_keys (n_entities n_junk : nat) : list (option nat) :=
+  repeat c05_android_entity_key n_entities ++ repeat c05_android_junk_key n_junk.
 
 (* ---- specification side ---------------------------------------------------------- *)
 (* offsets of the occurrences of c, counted from p *)
